@@ -195,7 +195,14 @@ func (m *Manager) Allocate(ctx context.Context, cni *daemon.CNI, req *AllocReque
 
 			select {
 			case <-ctx.Done():
-				break
+				// the eni may have answered already, do not drop the result
+				select {
+				case resp, ok := <-ch:
+					if ok && resp != nil && resp.Err == nil {
+						resultCh <- resp.NetworkConfigs
+					}
+				default:
+				}
 			case resp, ok := <-ch:
 				if !ok {
 					err = fmt.Errorf("ctx done")
